@@ -125,7 +125,11 @@ def bind(world, fs, chunk_size=None):
     world.patch(ds, 'aio_write', fs.aio_write)
     world.patch(ds, 'aio_read', fs.aio_read)
     # the 1 ms keep-awake poller only matters for real kernel AIO; it would make the loop never quiescent
-    world.patch(ds.AioFile, '_start_keep_awake_thread', classmethod(lambda cls: None))
-    world.patch(ds.AioFile, '_stop_keep_awake_thread', classmethod(lambda cls: None))
+    # (the start/stop reference counting itself stays real: it is shared state between overlapping operations)
+    import gevent.event
+    world.patch(ds.AioFile, '_keep_awake', classmethod(lambda cls: gevent.event.Event().wait()))
+    world.patch(ds.AioFile, '_keep_awake_lock', Semaphore(1))
+    world.patch(ds.AioFile, '_keep_awake_thread', None)
+    world.patch(ds.AioFile, '_keep_awake_refs', 0)
     if chunk_size is not None:
         world.patch(ds.AioFile, 'chunk_size', chunk_size)
